@@ -832,8 +832,9 @@ def judge_wms_call(run, ctx, call, src, asked, op, combined):
             if clipped:
                 run.hit('bbox_on_coverage_edge')
             if over[0] > ex or over[2] > ex or over[1] > ey or over[3] > ey:
+                beyond = bool(asked and any(math.isfinite(v_) and abs(v_) > 1e9 for v_ in asked.get('bbox', [])))
                 ctx.bad(dict(base, clause='bbox', sub='outside_coverage', coverage_kind=cov['kind'],
-                             same_srs=norm_code(cov['srs']) == norm_code(q['srs'])),
+                             same_srs=norm_code(cov['srs']) == norm_code(q['srs']), client_bbox_beyond_any_coordinate=beyond),
                         'source %s coverage bbox %r (%s) = %r in %s; upstream bbox %r size %r exceeds it by (%.4g, %.4g, %.4g, %.4g) px: %s' % (
                             src['name'], cov['bbox'], cov['srs'], env, q['srs'], b, (w, h), over[0] / px, over[1] / py, over[2] / px, over[3] / py, call.url[:300]))
     elif valid:
